@@ -403,9 +403,13 @@ func (n *Tree[V]) findNode(path string, captures []string, matcher LookupMatcher
 
 	if n.catchAllChild != nil {
 		// Hit the catchall, so just assign the whole remaining path.
+		// the matcher has to see the keys of the free wildcard expression (not the keys
+		// of its parent), as well as the value captured by the free wildcard itself
+		catchAllCaptures := append(captures, path) //nolint:gocritic
+
 		for idx, value = range n.catchAllChild.values {
-			if match := matcher.Match(value, n.wildcardKeys, captures); match {
-				return n.catchAllChild, idx, append(captures, path), false
+			if match := matcher.Match(value, n.catchAllChild.wildcardKeys, catchAllCaptures); match {
+				return n.catchAllChild, idx, catchAllCaptures, false
 			}
 		}
 
